@@ -12,7 +12,7 @@ import sys
 
 HERE = os.path.dirname(os.path.dirname(os.path.abspath(__file__)))
 pref = sys.argv[1:]
-for d in sorted(glob.glob(os.path.join(HERE, "seeded", "C*-[mw]*"))):
+for d in sorted(glob.glob(os.path.join(HERE, "seeded", "C*-[mwx]*"))):
     name = os.path.basename(d)
     if pref and not any(name.startswith(p) for p in pref):
         continue
